@@ -3,6 +3,7 @@
 A *system spec* is a JSON dict (see ``system_spec``); ``build_system`` turns it into a pyPRISM System, ``reference`` into the
 independent inputs (omega_ref(k), u_ref(r)/kT, densities, sigma) computed by pbt.oracles / own loops -- never by pyPRISM.
 """
+import json
 import math
 import warnings
 
@@ -84,14 +85,15 @@ def system_spec(max_types=3, big=False, methods=('krylov',), min_types=1, allow_
                              st.lists(st.tuples(st.integers(0, 13), st.booleans()), min_size=n * (n + 1) // 2, max_size=n * (n + 1) // 2),
                              st.sampled_from(list(methods)), st.booleans(),
                              st.one_of(st.none(), st.none(), st.tuples(st.integers(1, 12), st.integers(1, 12), st.sampled_from([1.0, 1.2]))),
-                             st.lists(st.sampled_from([None, None, None, None, 0.8, 1.0, 1.2, 0.890899]), min_size=n * (n + 1) // 2, max_size=n * (n + 1) // 2)
+                             st.lists(st.sampled_from([None, None, None, None, 0.8, 1.0, 1.2, 0.890899]), min_size=n * (n + 1) // 2, max_size=n * (n + 1) // 2),
+                             st.sampled_from([False, False, True])
                              ).map(lambda t: assemble(n, dr, kT, d, *t, allow_ms=allow_ms))
         return dias.flatmap(with_dias)
     return st.tuples(st.integers(min_types, max_types), st.sampled_from([0.1, 0.1, 0.05, 0.2, 0.25, 0.125]),
                      st.one_of(st.just(1.0), specs.logfloat(-0.3, 0.7, 3))).flatmap(lambda t: body(*t))
 
 
-def assemble(n, dr, kT, dias, length, om_self, pots, split, eta, clo_draw, method, intermol, diblock=None, sig_draw=None, allow_ms=True):
+def assemble(n, dr, kT, dias, length, om_self, pots, split, eta, clo_draw, method, intermol, diblock=None, sig_draw=None, shared=False, allow_ms=True):
     w = np.asarray(split, dtype=float)
     dias = list(dias)
     om_self = list(om_self)
@@ -132,6 +134,9 @@ def assemble(n, dr, kT, dias, length, om_self, pots, split, eta, clo_draw, metho
         if name in ('MSA', 'MS'):
             flag = True
         spec['closure'][key(i, j)] = [name, bool(flag)]
+    if shared:
+        # the user creates ONE object per distinct potential / closure / omega and assigns it to every pair that uses it
+        spec['assign'] = 'shared-objects'
     return spec
 
 
@@ -236,6 +241,25 @@ def build_system(spec, scale=1.0, types=None):
     for t, d, r in zip(types, spec['dia'], rho):
         s.diameter[t] = d
         s.density[t] = r
+    if spec.get('assign') == 'shared-objects':
+        # one object per distinct constructor call, assigned to every pair that uses it (with one block assignment when all pairs
+        # use it): the tables store independent copies, so this is the same System as the pair-by-pair one
+        for table, ctor in ((s.omega, lambda k_: (spec['omega'][k_], lambda: make_omega(spec['omega'][k_], grid_k(spec)))),
+                            (s.potential, lambda k_: ([spec['potential'][k_][0], pot_params(spec['potential'][k_][0], spec['potential'][k_][1], potential_sigma(spec, *[int(v) for v in k_.split(',')]))] + list(spec['potential'][k_][2:]),
+                                                      lambda: make_potential(spec['potential'][k_], (spec['dia'][int(k_.split(',')[0])] + spec['dia'][int(k_.split(',')[1])]) / 2.0))),
+                            (s.closure, lambda k_: (spec['closure'][k_], lambda: make_closure(spec['closure'][k_])))):
+            groups = {}
+            for (i, j) in pair_indices(n):
+                ident, make = ctor(key(i, j))
+                groups.setdefault(json.dumps(ident, sort_keys=True, default=str), [make, []])[1].append((i, j))
+            for make, members in groups.values():
+                obj = make()
+                if len(members) == n * (n + 1) // 2 and n > 1:
+                    table[types, types] = obj
+                else:
+                    for (i, j) in members:
+                        table[types[i], types[j]] = obj
+        return s
     for (i, j) in pair_indices(n):
         k = key(i, j)
         sig = (spec['dia'][i] + spec['dia'][j]) / 2.0
